@@ -181,6 +181,7 @@ func enumCases(r *Routine, p Prec, mn *menus, emit func(cs *caseSpec)) {
 type scalarSetting struct {
 	desc  string
 	apply func(c *Call)
+	a, b  complex128 // alpha and beta of the setting (zero for rotm settings)
 }
 
 func scalarSettings(r *Routine, p Prec, mn *menus) []scalarSetting {
@@ -212,7 +213,7 @@ func scalarSettings(r *Routine, p Prec, mn *menus) []scalarSetting {
 			if hasB {
 				d += fmt.Sprintf(" beta=%v", b)
 			}
-			out = append(out, scalarSetting{d, func(c *Call) { c.Alpha, c.Beta = a, b }})
+			out = append(out, scalarSetting{d, func(c *Call) { c.Alpha, c.Beta = a, b }, a, b})
 		}
 	}
 	return out
@@ -238,7 +239,7 @@ func rotmSettings(mn *menus) []scalarSetting {
 			case blas.Diagonal:
 				h[1], h[2] = nan, nan
 			}
-			out = append(out, scalarSetting{fmt.Sprintf(" flag=%d H=%v", fl, h), func(c *Call) { c.RotmFlag, c.RotmH = fl, h }})
+			out = append(out, scalarSetting{desc: fmt.Sprintf(" flag=%d H=%v", fl, h), apply: func(c *Call) { c.RotmFlag, c.RotmH = fl, h }})
 			if fl == blas.Identity {
 				break
 			}
@@ -259,8 +260,17 @@ func runCase(t *vlib.T, cs *caseSpec, mn *menus, inv invoker, reduced bool) {
 		incs = []int{1, 2}
 		lds = []int{1}
 		fills = []fillSpec{{0, 0, false}, {1, 2, true}}
-		if len(settings) > 4 {
-			settings = []scalarSetting{settings[1], settings[len(settings)/2], settings[len(settings)-2], settings[len(settings)-1]}
+		if !r.Has("P") {
+			// alpha ∈ {0, one non-zero value} × beta ∈ {0, 1, one other value}
+			var keep []scalarSetting
+			for _, ss := range settings {
+				aOK := ss.a == 0 || ss.a == settings[len(settings)-1].a
+				bOK := ss.b == 0 || ss.b == 1 || ss.b == settings[len(settings)-1].b
+				if aOK && bOK {
+					keep = append(keep, ss)
+				}
+			}
+			settings = keep
 		}
 	}
 	nops := len(r.Ops)
